@@ -563,4 +563,33 @@ def sendGroup (refused : List Bool) : List Nat :=
 whatever bound the connection carried before (`prev`, possibly already past) -/
 def beforeWrite (_prev : Option Nat) (now writeWait : Nat) : Nat := now + writeWait
 
+/-! ## 11. zoneInflightLimiter and its caller -/
+
+/-- one bucket of `zoneInflightLimiter` as `groupLookup`'s leader closure uses
+it: `count` is the bucket's atomic counter, `held` the reservations whose
+deferred release is still pending (ghost). -/
+structure ZL where
+  count : Nat := 0
+  held : Nat := 0
+deriving DecidableEq, Repr
+
+/-- `release, ok := acquire(zone); if !ok { return errZoneCapacity }; defer release()`:
+`acquire` adds one, and takes it back itself when the quota is exceeded. -/
+def ZL.enter (z : ZL) (perZone : Nat) : ZL × Bool :=
+  if z.count + 1 > perZone then (z, false)          -- Add(1) > perZone → Add(-1), nil, false
+  else ({ count := z.count + 1, held := z.held + 1 }, true)
+
+/-- the deferred release of one admitted lookup -/
+def ZL.leave (z : ZL) : ZL :=
+  if z.held = 0 then z else { count := z.count - 1, held := z.held - 1 }
+
+inductive ZOp
+  | enter
+  | leave
+deriving DecidableEq, Repr
+
+def ZL.step (perZone : Nat) (z : ZL) : ZOp → ZL
+  | .enter => (z.enter perZone).1
+  | .leave => z.leave
+
 end SdnsVerif.Model.OneReply
